@@ -310,6 +310,80 @@ theorem runStep_reverse {α} (ops : NumOps α) (numLe : α → α → Bool) (cfg
   simp only [runStep]
   exact pySliceStep_reverse _
 
+/-! ### a step of 1 is the plain slice -/
+
+theorem takeWhile_lt_map_range' (s e : Int) : ∀ (n : Nat) (off : Nat),
+    ((List.range' off n).map (fun (k : Nat) => s + Int.ofNat k * 1)).takeWhile (fun i => decide (i < e))
+      = (List.range' off (min n ((e - s - off).toNat))).map (fun (k : Nat) => s + Int.ofNat k * 1)
+  | 0, off => by simp
+  | n + 1, off => by
+      rw [List.range'_succ, List.map_cons]
+      have e1 : Int.ofNat off = (off : Int) := rfl
+      by_cases h : s + Int.ofNat off * 1 < e
+      · rw [List.takeWhile_cons_of_pos (by simpa using h), takeWhile_lt_map_range' s e n (off + 1)]
+        rw [e1] at h
+        have hm : min (n + 1) ((e - s - (off : Int)).toNat) = min n ((e - s - ((off + 1 : Nat) : Int)).toNat) + 1 := by
+          push_cast; omega
+        rw [hm, List.range'_succ, List.map_cons]
+      · rw [List.takeWhile_cons_of_neg (by simpa using h)]
+        rw [e1] at h
+        have hm : min (n + 1) ((e - s - (off : Int)).toNat) = 0 := by omega
+        rw [hm]; rfl
+
+theorem filterMap_range'_getElem? {β} (l : List β) : ∀ (m s : Nat),
+    (List.range' s m).filterMap (fun i => l[i]?) = (l.drop s).take m
+  | 0, s => by simp
+  | m + 1, s => by
+      rw [List.range'_succ, List.filterMap_cons]
+      by_cases h : s < l.length
+      · rw [List.getElem?_eq_getElem h, filterMap_range'_getElem? l m (s + 1)]
+        rw [List.drop_eq_getElem_cons h, List.take_succ_cons]
+      · have hn : l.length ≤ s := Nat.le_of_not_lt h
+        rw [List.getElem?_eq_none hn, filterMap_range'_getElem? l m (s + 1)]
+        rw [List.drop_eq_nil_of_le hn, List.drop_eq_nil_of_le (Nat.le_succ_of_le hn)]
+        simp
+
+theorem normPos_eq (len : Nat) (i : Int) :
+    (if i < 0 then max (i + (len : Int)) 0 else min i (len : Int)) = ((normIdx len i : Nat) : Int) := by
+  unfold normIdx
+  split <;> omega
+
+/-- `l[a:b:1] = l[a:b]`: the stepped slice of the model agrees with the plain slice where both apply, so every
+theorem about `pySlice` / `sliceChain` carries over -/
+theorem pySliceStep_one {β} (l : List β) (start stop : Option Int) :
+    pySliceStep l start stop 1 = pySlice l start stop := by
+  unfold pySliceStep pySlice sliceIndices
+  simp only [show ((1 : Int) > 0) by decide, if_true]
+  -- the normalised bounds, as naturals
+  have hs : (Option.map (fun i : Int => if i < 0 then max (i + (l.length : Int)) 0 else min i (l.length : Int)) start).getD 0
+      = (((start.map (normIdx l.length)).getD 0 : Nat) : Int) := by
+    cases start with
+    | none => simp
+    | some a => simp only [Option.map_some, Option.getD_some]; exact normPos_eq _ _
+  have he : (Option.map (fun i : Int => if i < 0 then max (i + (l.length : Int)) 0 else min i (l.length : Int)) stop).getD (l.length : Int)
+      = (((stop.map (normIdx l.length)).getD l.length : Nat) : Int) := by
+    cases stop with
+    | none => simp
+    | some a => simp only [Option.map_some, Option.getD_some]; exact normPos_eq _ _
+  rw [hs, he]
+  generalize (start.map (normIdx l.length)).getD 0 = s
+  have hel : (stop.map (normIdx l.length)).getD l.length ≤ l.length := by
+    cases stop with
+    | none => simp
+    | some a => simp only [Option.map_some, Option.getD_some]; unfold normIdx; split <;> omega
+  generalize (stop.map (normIdx l.length)).getD l.length = e at hel ⊢
+  rw [List.range_eq_range', takeWhile_lt_map_range' (s : Int) (e : Int) l.length 0, List.map_map]
+  have hm : min l.length (((e : Int) - (s : Int) - ((0 : Nat) : Int)).toNat) = e - s := by omega
+  rw [hm]
+  have hmap : (List.range' 0 (e - s)).map (Int.toNat ∘ fun (k : Nat) => (s : Int) + Int.ofNat k * 1) = List.range' s (e - s) := by
+    apply List.ext_getElem
+    · simp
+    · intro i h1 h2
+      simp only [List.getElem_map, List.getElem_range', Function.comp]
+      have e1 : Int.ofNat (0 + 1 * i) = ((0 + 1 * i : Nat) : Int) := rfl
+      rw [e1]; omega
+  rw [hmap, filterMap_range'_getElem?]
+
 example : pySliceStep [10, 11, 12, 13, 14] none none (-1) = [14, 13, 12, 11, 10] := by decide
 example : pySliceStep [10, 11, 12, 13, 14] (some 4) (some 1) (-1) = [14, 13, 12] := by decide
 
